@@ -20,7 +20,7 @@ const (
 // C01 — reconstructed threshold signatures verify under the group key and agree.
 func C01(c *Ctx) {
 	r := c.R
-	r.Explain = "Decided statically (wiring of the two cryptographic call sites; the arithmetic inside kyber is trusted): (R1) the only producer of ReconstructedSignature.Signature is tbls.Recover called with the round's own public polynomial (PubPolyBz of the same FSM instance), the expanded proposal payload of the message whose id keys the share list, the shares collected under that id, t = the round's Threshold and n = number of registered participants; " +
+	r.Explain = "Decided statically (wiring of the two cryptographic call sites; the arithmetic inside kyber is trusted): (R1) the only producer of ReconstructedSignature.Signature is tbls.Recover called with the round's own public polynomial (PubPolyBz of the same FSM instance), the expanded proposal payload of the message whose id keys the share list, the shares collected under that id, t = the round's Threshold and n = number of registered participants, and every non-nil value recoverFullSign returns is that call's result (nothing remembered across calls or rounds); " +
 		"(R2) a partial signature is tbls.Sign(suite, share of the keyring stored for the operation's round, payload of the expanded message) and is labelled with that message's id; (R3) what is broadcast and stored is exactly what was reconstructed; " +
 		"(R4) the threshold used for key generation (NewDistKeyGenerator) is the proposal's threshold carried by the operation, identical in origin to the FSM's Threshold used for releasing and interpolating a batch — no site rewrites it. " +
 		"NOT decided: correctness of tbls.Recover/tbls.Sign, equality of all t-subsets' interpolation (BLS uniqueness), validity under an independent Ethereum verifier, the (n,t)/subset/order quantifier."
@@ -76,6 +76,28 @@ func C01(c *Ctx) {
 			}
 		})
 		r.Check(ok, "C01/R1", "node.reconstructThresholdSignature:messages-by-id", "the lookup table maps each expanded message's own id to that message", c.Pos(fn.Pos()), "messages[m.MessageID] = m not recognised")
+		// what recoverFullSign hands back is what tbls.Recover computed in this very call: from the round's polynomial and these
+		// shares — never a remembered value (a signature kept from another round is not a signature under this round's key)
+		if rf := c.Fn("C01/R1", pkgNode, "", "recoverFullSign"); rf != nil {
+			var off []string
+			nret := 0
+			for _, ret := range ssax.Returns(rf) {
+				if len(ret.Results) != 2 {
+					continue
+				}
+				v := ssax.Resolve(ret.Results[0])
+				if ssax.IsNilConst(v) {
+					continue
+				}
+				nret++
+				if p := npath(ret.Results[0]); !strings.HasPrefix(p, "tbls.Recover(") || !strings.HasSuffix(p, ")#0") {
+					off = append(off, p+" at "+c.PosOf(ret))
+				}
+			}
+			sort.Strings(off)
+			r.Check(nret >= 1 && len(off) == 0, "C01/R1", "node.recoverFullSign:returns-recovered", "every signature recoverFullSign returns is tbls.Recover's result of this call", c.Pos(rf.Pos()),
+				sprintf("%d non-nil results; not the interpolation's result: %s — a value remembered across calls ignores the round's group key and the shares delivered", nret, strings.Join(off, "; ")))
+		}
 		// all callers of recover
 		cs := c.callersOf(pkgNode + ".recoverFullSign")
 		r.Check(len(cs) == 1 && strings.HasSuffix(cs[0], "reconstructThresholdSignature"), "C01/R1", "node.recoverFullSign:callers", "signatures are reconstructed at one site only", "", "callers: "+strings.Join(cs, ", "))
